@@ -34,6 +34,10 @@ def proto_runs(mode):
         if mode == "c09" and tier == "quick":
             extra = ["--a", "1"]
         runs = [("main", ["--mode", mode] + extra + c) for c in cfgs(mt)]
+        if mode == "c09":               # a responder with two interfaces: frames on the other interface interleave with the history and the continuations
+            runs += [("main", ["--mode", mode, "--a", "1", "--b", "1", "--mtu", "1500", "--wifi", "0"])]
+        if mode in ("c02", "c03"):      # a platform whose machine name exceeds the 32 bytes a Hello may carry
+            runs += [("main", ["--mode", mode, "--a", "2", "--mtu", "576", "--wifi", "1"])]
         if mode in ("c02", "c03"):      # the same closure on the responder's second interface
             runs += [("main", ["--mode", mode, "--b", "1", "--mtu", "1500", "--wifi", str(w)]) for w in (0, 1)]
         return runs
@@ -43,6 +47,8 @@ def proto_runs(mode):
 def obs_runs(mode):
     def f(tier):
         mt = sorted(set(MTUS_MOD20 + [1500] + ([1492, 9216] + list(range(1480, 1500)) if tier == "thorough" else [])))
+        if mode == "c07":
+            mt = sorted(set(mt + [1534, 9216]))          # jumbo frames: more than 74 observations fit one QueryResp
         return [("main", ["--mode", mode, "--mtu", str(m), "--wifi", "0"]) for m in mt]
     return f
 
@@ -68,6 +74,8 @@ def fsm_runs(mode):
         runs = [("main", ["--mode", mode + "-steps"])]
         extra = []
         runs.append(("main", ["--mode", mode + "-closure"] + extra))
+        if mode == "c14":
+            runs.append(("main", ["--mode", "c14-closure", "--a", "1"]))      # two session-table keys, reduced alphabet
         return runs
     return f
 
@@ -304,7 +312,7 @@ PROPS = {
     },
     "C13": {
         "engine": "sweep",
-        "builds": {"main": {"sources": MC + ["checks/c13.c"]}}, "runs": c13_runs, "level": "exploration",
+        "builds": {"main": {"sources": MC + ["mc/darwin.c", "checks/c13.c"]}}, "runs": c13_runs, "level": "exploration",
         "technique": "exhaustive input enumeration of band_update_stats / band_choose_hello_time against a 128-bit reference (all 2^32 values of r in the thorough tier)",
         "rule": "one evaluation = one call of the real function with (r, begun, prior Ni) or (Ni); distinct_nontrivial counts distinct resulting (Ni | required interval) values observed",
         "assumptions": ["quick tier covers r in [0,2^20), [2^32-2^16,2^32), all 2^k+-2 and the points where 45*r^2 crosses 2^k; thorough covers every r"],
